@@ -9,7 +9,9 @@
 #ifndef VM_ROOT_HAS_STUB
 #define VM_ROOT_HAS_STUB 0      /* headless roots: state 0 is anonymous and runs no user code */
 #endif
+#ifndef VM_HAS_STUB
 #define VM_HAS_STUB(s) ((s) != 0 || VM_ROOT_HAS_STUB)
+#endif
 static bool     g_entered[VM_NS];        // C03: enter/exit alternation
 static uint8_t  g_enter_count[VM_NS], g_exit_count[VM_NS];
 static bool     g_protocol_ok = true;    // set false by any monitor violation that is also asserted at the spot
@@ -24,9 +26,11 @@ static bool     g_round_cancelled;       // some guard of the current round canc
 static bool     g_exit_guard_ran[VM_NS], g_entry_guard_ran[VM_NS];
 static unsigned g_guard_calls;
 static bool     g_guards_forbidden;      // replay must not consult guards (C09)
+static bool     g_expect_guards;         // request-processing steps: no state is exited / entered before its own guard was consulted (C04)
 // C04 substitution: the guard of state g_sub_guard (entry guard if g_sub_is_entry) vetoes round 1 and requests g_sub_dest instead
 static int      g_sub_guard = -1, g_sub_dest = 0; static bool g_sub_is_entry = true, g_sub_done, g_sub_forever;
 static int      g_round_now; static bool g_cancel_round[3]; static unsigned g_sub_guard_calls;
+static bool     g_sub_veto2;             // with g_sub_nocancel: the guards of the SECOND round (the one the keyed guard asked for) may veto it, symbolically
 static bool     g_sub_nocancel;          // the keyed guard requests g_sub_dest WITHOUT vetoing (a second approved round in one step)
 // C02/C12: answers of select()/rank()/utility(): symbolic, one answer per state and step (memoised), recorded for the oracle
 static bool     g_sel_called[VM_NS], g_rank_called[VM_NS], g_util_called[VM_NS];
@@ -83,7 +87,7 @@ struct St : FSM::State {
       g_sub_done = true; cancel = false; c.changeTo((StateID) g_sub_dest);
     } else if (ID == g_sub_guard && is_entry == g_sub_is_entry && !g_sub_nocancel && (g_sub_forever || (round == 1 && !g_sub_done))) {
       g_sub_done = true; ++g_sub_guard_calls; cancel = true; c.cancelPendingTransitions(); c.changeTo((StateID) g_sub_dest);
-    } else if (g_sub_guard >= 0 && (round == 1 || g_sub_nocancel)) { cancel = false;          // substitution jobs: in round 1 only the keyed guard vetoes (keeps the request queue concrete, DESIGN L2)
+    } else if (g_sub_guard >= 0 && (round == 1 || (g_sub_nocancel && !g_sub_veto2))) { cancel = false;          // substitution jobs: in round 1 only the keyed guard vetoes (keeps the request queue concrete, DESIGN L2)
     } else { cancel = g_deterministic ? false : nd_bool(); if (cancel) c.cancelPendingTransitions(); }
     if (cancel) { g_cancel_round[round] = true; g_round_cancelled = true; ++g_cancels_issued; }
   }
@@ -97,6 +101,7 @@ struct St : FSM::State {
     if (g_pay_n) { check_payloads(c.currentTransitions(), false); VASSERT(C14, c.currentTransitions().count() == (unsigned) g_pay_n, "states being entered read the step's transitions from currentTransitions()"); }
 #endif
     (void) c; trace_push(ID, Method::ENTER);
+    if (g_expect_guards) VASSERT(C04, g_entry_guard_ran[ID], "a state is entered only after its entry guard was consulted in this step");
     VASSERT(C03, !g_entered[ID], "enter and exit strictly alternate, beginning with enter");
     VASSERT(C03, VM_SPEC[ID].parent < 0 || !VM_HAS_STUB(VM_SPEC[ID].parent) || g_entered[VM_SPEC[ID].parent], "a state is entered after its parent");
     g_entered[ID] = true; ++g_enter_count[ID];
@@ -105,6 +110,7 @@ struct St : FSM::State {
   void exit(typename Base::PlanControl&) {
     trace_push(ID, Method::EXIT);
     VASSERT(C03, g_entered[ID], "exit is delivered only to an entered state");
+    if (g_expect_guards) VASSERT(C04, g_exit_guard_ran[ID], "a state is exited only after its exit guard was consulted in this step");
     for (int c = ID + 1; c < VM_NS; ++c) if (VM_SPEC[c].parent == ID) VASSERT(C03, !g_entered[c], "a state is exited after its sub-states");
     g_entered[ID] = false; ++g_exit_count[ID];
   }
